@@ -62,5 +62,11 @@ broadcast use {axiom_string_eq_spec, axiom_string_obeys_eq, axiom_to_string_stri
 //%include pair_provide.rs
 //%include pair_contract.rs
 }
+pub mod lpvalue {
+use super::*;
+use super::pair::*;
+#[allow(unused_imports)] use super::shim::Decimal;
+//%include mlem_lp.rs
+}
 } // verus!
 fn main() {}
